@@ -35,6 +35,7 @@ type H2Opts struct {
 	SplitHdr  bool     // split header blocks into CONTINUATION frames
 	EncTable  []uint32 // sizes our own encoder switches to between messages (within MOSN's limit)
 	NewTable  []uint32 // later SETTINGS_HEADER_TABLE_SIZE values we send between messages
+	NewWin    []uint32 // later SETTINGS_INITIAL_WINDOW_SIZE values we send while streams are open
 	TablePair bool     // a change to 0 is followed at once by the next value (two size updates in one header block)
 }
 
@@ -106,7 +107,7 @@ type H2End struct {
 	// Violation sink (property C18)
 	Viol func(class, format string, a ...any)
 	// statistics
-	DataFrames, FlowChecks, Stalls, Grants, SizeUpdatesSeen, Continuations, EmptyEnds int
+	DataFrames, FlowChecks, Stalls, Grants, SizeUpdatesSeen, Continuations, EmptyEnds, WinChanges int
 	// callbacks
 	OnMessage func(e *H2End, st *h2stream) // a complete message (headers [+ body]) arrived
 	Kick      func()                       // there may be streams waiting for credit: (re)start the world's credit events
@@ -662,6 +663,20 @@ func (e *H2End) allowTables() {
 	e.dec.SetAllowedMaxDynamicTableSize(m)
 }
 
+// ChangeInitWindow sends a new SETTINGS_INITIAL_WINDOW_SIZE to MOSN: from its acknowledgement on the
+// window of every open stream has moved by the difference (RFC 7540 6.9.2), possibly below zero.
+func (e *H2End) ChangeInitWindow(v uint32) {
+	if e.Err != nil || e.Closed || e.Conn == nil {
+		return
+	}
+	e.pending = append(e.pending, h2settings{initWin: int64(v), table: -1})
+	e.O.InitWin = v
+	_ = e.fr.WriteSettings(http2.Setting{ID: http2.SettingInitialWindowSize, Val: v})
+	e.flush()
+	e.WinChanges++
+	e.S.Logf("h2 %s: SETTINGS_INITIAL_WINDOW_SIZE=%d", e.Name, v)
+}
+
 // ChangeTableSize sends a new SETTINGS_HEADER_TABLE_SIZE to MOSN.
 func (e *H2End) ChangeTableSize(v uint32) {
 	if e.Err != nil || e.Closed || e.Conn == nil {
@@ -879,6 +894,9 @@ func (u *H2Upstream) onRequest(e *H2End, st *h2stream) {
 		u.SendMessage(st, fieldsOf(rm, ""), rm.Body)
 		up.Sent = append(up.Sent, rm.Body)
 		// SETTINGS_HEADER_TABLE_SIZE changes in the middle of the connection's life: after the k-th answer
+		if k := u.Requests - 1; k < len(u.O.NewWin) {
+			u.ChangeInitWindow(u.O.NewWin[k])
+		}
 		if k := u.Requests - 1; k < len(u.O.NewTable) {
 			u.ChangeTableSize(u.O.NewTable[k])
 			if u.O.NewTable[k] == 0 && k+1 < len(u.O.NewTable) && u.O.TablePair {
